@@ -24,6 +24,9 @@ structure St where
   prev : Option State := none
   /-- the invariant gaps on the previous real state -/
   prevGaps : List (String × String × Int) := []
+  /-- vaults re-created by the wind-down of a first-generation auction under emergency shutdown: outside the debt-floor
+  clause (which speaks about owners' operations) -/
+  floorExempt : List Nat := []
 
 def init : St := {}
 
@@ -68,6 +71,7 @@ def parseMsg (kind : String) (a : List String) : Option Msg :=
   | "esmStable" => do pure (.esmStable (← n 0))
   | "esmCollector" => do pure (.esmCollector (← n 0) (← n 1) (← z 2))
   | "esmBurn" => do pure (.esmBurn (← n 0) (← n 1) (← n 2) (← z 3))
+  | "esmReturn1" => do pure (.esmReturn1 (← n 0) (← n 1) (← z 2) (← z 3))
   | _ => none
 
 def parseProduct (f : List String) : Option Product :=
@@ -251,10 +255,10 @@ def msgMonitors (cfgL : List Product) (prev real : State) (m : Msg) (e : Env) : 
   | _ => []
 
 /-- C03 state monitors: floor and ceiling on the REAL state -/
-def limitMonitors (cfgL : List Product) (r : State) : List String :=
+def limitMonitors (cfgL : List Product) (exempt : List Nat) (r : State) : List String :=
   let cfg := cfgOf cfgL
   let m1 := r.vaults.filterMap fun v => match cfg v.product with
-    | some p => if p.debtFloor ≤ v.amountOut then none else
+    | some p => if p.debtFloor ≤ v.amountOut ∨ exempt.contains v.id then none else
         some s!"floor_kept\tvault {v.id}: principal {v.amountOut} below debt floor {p.debtFloor}"
     | none => none
   let m2 := cfgL.filterMap fun p => if r.minted p.id ≤ p.debtCeiling then none else
@@ -278,6 +282,9 @@ def handle (st : St) (seq : String) (f : List String) : St × List String :=
       let st' := { st' with lastOk := if outcome = "ok" then some (m, e) else none }
       match r with
       | some s' =>
+        let st' := match m with
+          | .esmReturn1 .. => if s'.nextVault > st.s.nextVault then { st' with floorExempt := s'.nextVault :: st'.floorExempt } else st'
+          | _ => st'
         if outcome = "ok" then ({ st' with s := s' }, [])
         -- the model accepts what the code rejects: keep the real (unchanged) state
         else (st', [s!"DIFF\t{seq}\tmodel accepts, impl rejects: {st'.lastMsg}"])
@@ -287,7 +294,7 @@ def handle (st : St) (seq : String) (f : List String) : St × List String :=
     | _, _ => (st, [s!"BAD\t{seq}\tcannot parse msg/env"])
   | kind :: rest =>
     if kind ≠ "vault.state" ∧ kind ≠ "vault.state.settle" ∧ kind ≠ "vault.state.bid" ∧ kind ≠ "vault.state.settle1" ∧
-       kind ≠ "vault.state.esm" ∧ kind ≠ "vault.state.esmstable" ∧ kind ≠ "vault.state.esmburn" then
+       kind ≠ "vault.state.esm" ∧ kind ≠ "vault.state.esmstable" ∧ kind ≠ "vault.state.esmburn" ∧ kind ≠ "vault.state.esmreturn" then
       (st, [s!"BAD\t{seq}\tunknown vault line"]) else
     -- `.settle`: the state after a second-generation auction closed; `.bid`: after a partial auction fill (only bidder /
     -- auction-module coins move); `.settle1`: after a FIRST-generation auction closed (burns the principal exactly, so the
@@ -296,7 +303,7 @@ def handle (st : St) (seq : String) (f : List String) : St × List String :=
     -- redeemed: finding D29 lives on those lines only); `.esmburn`: after a holder's redemption (collateral paid out of the
     -- esm account by share is not vault custody: balances adopted)
     let isSettle := kind = "vault.state.settle" || kind = "vault.state.bid" || kind = "vault.state.settle1" ||
-                    kind = "vault.state.esmburn"
+                    kind = "vault.state.esmburn" || kind = "vault.state.esmreturn"
     let lenientSupply := kind = "vault.state.settle" || kind = "vault.state.bid"
     match parseProj rest with
     | none => (st, [s!"BAD\t{seq}\tcannot parse state"])
@@ -308,7 +315,7 @@ def handle (st : St) (seq : String) (f : List String) : St × List String :=
       let perMsg := match st.prev, st.lastOk with
         | some pv, some (m, e) => msgMonitors st.cfgL pv r m e
         | _, _ => []
-      let mons := (monitors st.cfgL st.prevGaps r lenientSupply ++ limitMonitors st.cfgL r ++ perMsg).map fun m => s!"MON\t{seq}\t{m}\tafter [{st.lastMsg}]"
+      let mons := (monitors st.cfgL st.prevGaps r lenientSupply ++ limitMonitors st.cfgL st.floorExempt r ++ perMsg).map fun m => s!"MON\t{seq}\t{m}\tafter [{st.lastMsg}]"
       -- resynchronise on the real state so that later divergences are independent
       let old := m0
       let resync : State := { r with bal := overlay p.bal old.bal }
